@@ -83,6 +83,8 @@ def main(tier, rep):
                     progs.append((cfg, steps))
     traces = [L.run_program(cfg, steps) for cfg, steps in progs]
     L.validate(rep, traces, relevant, PROP)
+    from drivers import connmodel
+    connmodel.design_and_replay(rep, tier, PROP, relevant)
     rep.set("evaluations", len(traces))
     rep.set("distinct_nontrivial", len({(str(sorted(t["cfg"].items())),) + tuple((s[1], s[2], s[3]) for s in t["steps"] if s[0] == "call" and s[3]) for t in traces}))
     rep.set("configurations", len(configs(tier)))
